@@ -19,23 +19,32 @@ TICK = 2.0 ** -10
 class Clock:
     def __init__(self):
         self.now = 1000.0      # seconds
+        self.wall_reads = 0
 
     def monotonic(self):
         return self.now
 
     def time(self):
-        return self.now
+        # the wall clock is not the monotonic clock: it is stepped (NTP, an operator, DST on a badly configured host) while requests are in flight -
+        # here by +2 h / -1 h between any two readings.  Durations the library measures must not depend on it.
+        self.wall_reads += 1
+        return 1.6e9 + self.now + (7200.0 if self.wall_reads % 2 else -3600.0)
 
     def __getattr__(self, name):  # anything else the client might look up on `time`
         import time as _t
         return getattr(_t, name)
 
 
+class Runaway(RuntimeError):
+    """raised by the stub connection when one request is waited for thousands of times"""
+
+
 class StubConn(BaseConnection):
     """records flush/send/wait; frames are (arrival_tick_after_send, payload)"""
+    made = 0
 
     def __init__(self, clock):
-        super().__init__('stub')
+        super().__init__('stub' if StubConn.made % 2 else 'stubdbg')        # every second one logs at DEBUG level (clientlib configures the logger)
         self.clock = clock
         self.opened = True
         self.log = []
@@ -44,10 +53,16 @@ class StubConn(BaseConnection):
         self.pending = []       # absolute (time, payload)
         self.t_send = None
         self.fail_send = None   # exception to raise from send
+        self.waits_since_send = 0
         self.send_delay = 0     # ticks the transport blocks inside send(); windows are measured from its return
         self.responder = None   # callable(payload) -> list of (ticks, payload) scripted for this send
         self.open_calls = 0
         self.close_calls = 0
+        # how this transport reports that nothing arrived within the timeout: by raising TimeoutException, or - every third connection the harness makes - by
+        # returning None (the documented alternative: `specific_wait_frame` returns "bytes or None"; some of the library's own connections do).  The client
+        # must treat both alike, so no suite needs to know which one it got.
+        StubConn.made += 1
+        self.none_on_timeout = StubConn.made % 3 == 0
         self.inflight_survives_flush = False   # a flush can only drop what has arrived: frames still on their way stay (used where the harness controls idle time)
 
     def open(self):
@@ -69,6 +84,7 @@ class StubConn(BaseConnection):
 
     def specific_send(self, payload):
         self.log.append(('send', bytes(payload)))
+        self.waits_since_send = 0
         if self.fail_send is not None:
             raise self.fail_send
         self.clock.now += self.send_delay * TICK
@@ -85,6 +101,11 @@ class StubConn(BaseConnection):
 
     def specific_wait_frame(self, timeout=2):
         t0 = self.t_send if self.t_send is not None else self.clock.now
+        self.waits_since_send += 1
+        if self.waits_since_send > 3000:
+            # no request of any suite needs more than a few dozen waits: a client that keeps waiting (virtual time: every wait returns at once) would
+            # never come back.  The call is ended here and shows up as an outcome no oracle accepts.
+            raise Runaway('the client waited %d times for one request without ending it (last timeout %r)' % (self.waits_since_send, timeout))
         self.log.append(('wait', (self.clock.now - t0) / TICK, timeout / TICK))
         if self.stale:
             return self.stale.pop(0)
@@ -93,6 +114,8 @@ class StubConn(BaseConnection):
             self.clock.now = max(self.clock.now, t)
             return p
         self.clock.now += timeout
+        if self.none_on_timeout:
+            return None
         raise TimeoutException('stub timeout')
 
 
